@@ -342,6 +342,10 @@ func (c12) Check(ctx *core.Ctx, c *core.Case) {
 			}
 			uses = append(uses, use{n, l})
 		case strings.HasPrefix(p, "para"):
+			if len(p) != 5 || p[4] < '0' || p[4] > '3' {
+				ctx.Skip("not_generator_shape") // a minimised input that glued something to the filler paragraph
+				return
+			}
 		default:
 			raw := p
 			if strings.HasPrefix(p, "> ") || strings.HasPrefix(p, "- ") {
